@@ -477,6 +477,15 @@ fn run_case(line: &str) -> String {
                     _ => canon_tree(&o, false),
                 }
             }
+            'V' => {
+                // resolved counters of every benchmark (own options over the groups above it)
+                let o = run_child(line, "resolved", false, &[]);
+                let mut s = enc(o.stdout.lines().next().unwrap_or(""));
+                if o.status != "ok" {
+                    s.push_str(&format!("!{}", o.status));
+                }
+                s
+            }
             'O' => {
                 // registered options (ignore, sample_count, counters, threads) of every entry
                 let o = run_child(line, "optdump", false, &[]);
